@@ -417,7 +417,8 @@ EQUIV = [
     ("(f(A) as r)=cc", "f(A, !#value as r, #value=cc)", "#value"),
 ]
 FOCUS_FORMS = ["x", "x:@T", "x as y", "x:@T as y", "*", "#value", "$x", "x=1", "* as x", "* as x:@T"]
-CONTEXT_FORMS = ["a", "a:@T", "a as z", "a=1", "$q", "#enter", "a, k", "h(j)", "#value", "!#value as z", "#value as z, a"]
+# (the last one constrains the very variable that is the focus of several laws: `f(x=1) > x` keeps the condition)
+CONTEXT_FORMS = ["a", "a:@T", "a as z", "a=1", "$q", "#enter", "a, k", "h(j)", "#value", "!#value as z", "#value as z, a", "x=1"]
 RESERVED = {"as"}
 
 
@@ -438,13 +439,14 @@ def _compile(it, text, syms):
     return it.call(it.get_global(S, "evaluate"), [tree], {})
 
 
-@unit("equivalences", ["C15"], [S + ":" + a for a in sorted({v[0] for v in ACTIONS.values()})] +
+_EQUIV_TARGETS = ([S + ":" + a for a in sorted({v[0] for v in ACTIONS.values()})] +
       [S + ":make_symbol", S + ":_guarantee_call", S + ":Evaluator.__call__", S + ":InternedMC.__call__", S + ":Element.clone", S + ":Element.with_focus",
        S + ":Element.without_focus", S + ":Call.clone", OP + ":Parser.process", OP + ":Parser.finalize", OP + ":OperatorPrecedenceTower.resolve",
-       OP + ":OperatorPrecedenceTower.__call__", OP + ":ASTNode.__init__", OP + ":Lexer.__call__", OP + ":Token.__init__"],
-      assumed=["operand names are concrete representatives (the actions never inspect a name except for '*'; interning for symbolic names is the unit 'interning'); re.match executed natively"],
-      max_paths=6000, replay=_replay_equiv)
-def u_equivalences(c):
+       OP + ":OperatorPrecedenceTower.__call__", OP + ":ASTNode.__init__", OP + ":Lexer.__call__", OP + ":Token.__init__"])
+_EQUIV_GROUPS = 6
+
+
+def _equivalences(c, group, ngroups):
     """Each documented pair of spellings compiles to THE SAME selector object, for symbolic operand names and for every
     operand form of a small grammar (names, tags, aliases, values, generic captures, meta-variables, sequences, nested
     calls); the focus is the variable marked with ! or standing after the last >."""
@@ -454,10 +456,14 @@ def u_equivalences(c):
     subs = {}
     if "X" in lhs:
         subs["X"] = FOCUS_FORMS[c.choose(len(FOCUS_FORMS), "focus-form")]
+    aidx = 0
     if "A" in lhs:
-        subs["A"] = CONTEXT_FORMS[c.choose(len(CONTEXT_FORMS), "context-form")]
+        aidx = c.choose(len(CONTEXT_FORMS), "context-form")
+        subs["A"] = CONTEXT_FORMS[aidx]
         if focus is not None:
             subs["A"] = subs["A"].replace("!", "")  # the law already marks a focus: a second mark is outside the documented equations
+    if (k + 5 * aidx) % ngroups != group:
+        return  # this (law, context form) pair belongs to another of the parallel units
     if "D" in lhs:
         subs["D"] = ["", ":@T", "=1", ":@T=1", " "][c.choose(5, "decoration")]
     if "B" in lhs:
@@ -487,6 +493,22 @@ def u_equivalences(c):
             c.prove(f"{label}/focus-is-the-marked-variable", main is not None and nm == "#value" and 1 in main.fields["tags"], note=f"{lhs!r}")
         elif fx in ("*", "$x", "* as x", "* as x:@T"):
             c.prove(f"{label}/focus-is-the-marked-variable", main is not None and nm is None and 1 in main.fields["tags"], note=f"{lhs!r}")
+
+
+def _mk_equivalences(group):
+    # the laws are split over several units (the pair (law k, context form a) goes to unit (k + 5a) mod 6) so that they are explored in parallel: one process for all of
+    # them needed most of the wall budget of the quick tier when the machine is busy
+    @unit("equivalences" if group == 0 else f"equivalences-{group}", ["C15"], _EQUIV_TARGETS,
+          assumed=["operand names are concrete representatives (the actions never inspect a name except for '*'; interning for symbolic names is the unit 'interning'); re.match executed natively"],
+          max_paths=6000, replay=_replay_equiv)
+    def u(c):
+        return _equivalences(c, group, _EQUIV_GROUPS)
+    u.__doc__ = _equivalences.__doc__
+    return u
+
+
+for _g in range(_EQUIV_GROUPS):
+    _mk_equivalences(_g)
 
 
 @unit("interning", ["C15", "C13", "C18"], [S + ":InternedMC.__call__", S + ":Element.__init__", S + ":Call.__init__"])
@@ -519,6 +541,18 @@ def u_interning(c):
     p2 = it.call(Element, [], dict(name="x", capture="x", value=it.call(MF, [g1], {})))
     p3 = it.call(Element, [], dict(name="x", capture="x", value=it.call(MF, [g2], {})))
     c.prove("element/predicate-conditions-on-the-same-function-are-the-same-object", p1 is p2 and p3 is not p1, only=["C15"])
+    # "the same function" is what Python calls equal: a bound method looked up twice (x~checker.ok evaluated at each compilation) gives two
+    # method objects that are equal and not identical -- the same predicate, hence the same selector
+    class _Checker:
+        def ok(self, v):
+            return True
+
+    ck = _Checker()
+    m1, m2 = ck.ok, ck.ok
+    q1 = it.call(Element, [], dict(name="x", capture="x", value=it.call(MF, [m1], {})))
+    q2 = it.call(Element, [], dict(name="x", capture="x", value=it.call(MF, [m2], {})))
+    q3 = it.call(Element, [], dict(name="x", capture="x", value=it.call(MF, [_Checker().ok], {})))
+    c.prove("element/predicate-given-as-a-bound-method-looked-up-twice-is-the-same-selector", m1 is not m2 and q1 is q2 and q3 is not q1, only=["C15"])
     # a value to compare a variable with may be any object the environment provides, including one that cannot be hashed (a list):
     # compiling such a selector must not fail with an internal TypeError
     st, e5 = run(it, Element, [], dict(name="x", capture="x", value=[1, 2]))
@@ -557,3 +591,34 @@ def u_resolve_element(c):
         c.prove("tag-or-none/accepted", st == "ok" and len(cloned) == 1 and cloned[0]["category"] is cat)
         if st == "ok":
             c.prove("capture/fresh-name-iff-none", cloned[0]["capture"] == ("/7" if capname is None else capname))
+
+
+CONDITION_TEXTS = [
+    # (selector text, number of conditions written in it)
+    ("f(x=1) > y", 1), ("f > x=1", 1), ("f(a=1, b=2) > x", 2), ("f(x=1) > g(x=2) > y", 2), ("f(x~p) > y", 1), ("f(#value=1, a) > x", 1),
+    # the constrained variable may also be the focus, written again after `>`: the condition stays (it is what restricts the events)
+    ("f(x=1) > x", 1), ("f(x~p) > x", 1), ("f(x=1, total) > x", 1), ("g > f(x=1) > x", 1), ("f(x as a=1) > x", 1),
+]
+
+
+@unit("conditions-kept", ["C12", "C04", "C15"], [S + ":make_nested_imm", S + ":make_call_capture", S + ":make_equals", S + ":make_matchfn", S + ":Call.hasval"],
+      mode="bounded", bound=f"{len(CONDITION_TEXTS)} selector texts with conditions in the call's parentheses, on the focus, in two calls, on the variable that is also the focus")
+def u_conditions_kept(c):
+    """Every condition written in a selector (name=value, name~predicate) is an element of the compiled selector -- none is dropped or
+    merged away -- and the selector knows that it has conditions (hasval), which is what makes the accumulators filter."""
+    it = Interp(c)
+    text, n = CONDITION_TEXTS[c.choose(len(CONDITION_TEXTS), "text")]
+    st, sel = run(it, SummaryFn("compile", lambda it_, a, kw: _compile(it_, text, {})), [])
+    c.prove("compiles", st == "ok" and isinstance(sel, Obj), note=f"{text!r}: {st} {sel!r}")
+    if st != "ok" or not isinstance(sel, Obj):
+        return
+    absent = it.models.absent(it)
+    todo, valued = [sel], []
+    while todo:
+        x = todo.pop()
+        if x.cls.name == "Call":
+            todo += [x.fields["element"], *x.fields["captures"], *x.fields["children"]]
+        elif x.fields.get("value", absent) is not absent:
+            valued.append(x)
+    c.prove("every-condition-written-is-in-the-compiled-selector", len(valued) == n, note=f"{text!r}: {len(valued)} conditions kept, {n} written")
+    c.prove("the-selector-knows-it-has-conditions", it.truth(it.getattr(sel, "hasval")), note=text)
